@@ -151,9 +151,11 @@ Inductive act :=
 | ARaiseExists
 | ASameFileNul (p q : path)   (* os.path.samefile on a path with an embedded NUL: ValueError, NOT caught by
                                   _paths_refer_to_same_file (it catches OSError only) *)
-| ASameFileAlias (p q : path). (* os.path.samefile on another HARD LINK of q's inode: True.  Hard links are given
+| ASameFileAlias (p q : path)  (* os.path.samefile on another HARD LINK of q's inode: True.  Hard links are given
                                   statically (sc_aliases); entries of the path map are otherwise independent
                                   files, which is exact as long as nothing is written in place *)
+| AReleaseHeld (t : nat).      (* ExternalTensor.release() while the caller holds a live array from tensor.numpy():
+                                  mmap.close() raises BufferError (reported as OtherError), the map stays open *)
 
 Definition counted (a : act) : bool :=
   match a with
@@ -301,11 +303,13 @@ Definition sem (a : act) (s : st) : st * res unit :=
   | ARaiseExists => (s, Raise OSError)
   | ASameFileNul p q => (log (OSameFileErr p q) s, Raise ValueError)
   | ASameFileAlias p q => (log (OSameFile p q true) s, Ok tt)
+  | AReleaseHeld t => (log (ORelease t) s, Raise OtherError)
   end.
 
 (* Exception kinds.  The shared enum (Base/Exn.v) reports everything outside the listed Exception classes
-   as OtherError; in this property's inputs those are exactly the BaseException-only kinds
-   KeyboardInterrupt / SystemExit (Ctrl-C in a callback, sys.exit() in a lazily evaluated tensor).
+   as OtherError; in this property's inputs those are the BaseException-only kinds KeyboardInterrupt /
+   SystemExit (Ctrl-C in a callback, sys.exit() in a lazily evaluated tensor) raised by tensors and callbacks,
+   and the BufferError of AReleaseHeld.
    `try ... finally` (PTry) runs its handler for every kind; an `except Exception` handler would not run
    for the kinds with is_base_exception = true.  _write_external_data uses `finally`. *)
 Definition is_base_exception (e : exn) : bool := match e with OtherError => true | _ => false end.
@@ -374,6 +378,7 @@ Record scn := {
   sc_cb : option (option (nat * exn)); (* no callback | callback (raising e at index j) *)
   sc_cbbase : nat;                     (* global index of the first tensor of this file (sharded saves) *)
   sc_aliases : list path;              (* other hard links of the destination's inode (realpaths) *)
+  sc_held : list nat;                  (* mapped external tensors of which the caller holds a live numpy view *)
 }.
 
 Fixpoint chunk_plan (fuel rel remaining c : nat) : list (nat * nat) :=
@@ -460,9 +465,12 @@ Definition plan_pre (fs : fsT) (tens : list tstate) (sc : scn) : list act :=
   ++ map (probe_act fs tens sc) (ext_handles (sc_tensors sc))
   ++ [AMkdtemp (sc_tmpd sc)].
 
+Definition rel_act (sc : scn) (h : nat) : act :=
+  if existsb (Nat.eqb h) (sc_held sc) then AReleaseHeld h else ARelease h.
+
 Definition plan_tail (fs : fsT) (tens : list tstate) (sc : scn) : list act :=
   let dest := dest_of fs (sc_req sc) in
-  map ARelease (overwritten fs tens sc)
+  map (rel_act sc) (overwritten fs tens sc)
   ++ AExists dest :: (if exists_ fs dest then [ACopymode dest (tmpf_of sc dest)] else [])
   ++ [AReplace (tmpf_of sc dest) dest].
 
